@@ -247,12 +247,16 @@ func (df *DataFrame) Head(n int) *DataFrame {
 	if n > df.Nrows() {
 		n = df.Nrows()
 	}
+	if n < 0 {
+		n = 0
+	}
 
 	head := NewDataFrame()
 	for name, col := range df.Columns {
+		// copy the cells: a sub-slice would share its backing array with df
 		newCol := &Column[any]{
 			Name: name,
-			Data: col.Data[:n],
+			Data: append([]any{}, col.Data[:n]...),
 		}
 		head.Columns[name] = newCol
 	}
@@ -271,12 +275,16 @@ func (df *DataFrame) Tail(n int) *DataFrame {
 	if n > totalRows {
 		n = totalRows
 	}
+	if n < 0 {
+		n = 0
+	}
 
 	tail := NewDataFrame()
 	for name, col := range df.Columns {
+		// copy the cells: a sub-slice would share its backing array with df
 		newCol := &Column[any]{
 			Name: name,
-			Data: col.Data[totalRows-n:],
+			Data: append([]any{}, col.Data[totalRows-n:]...),
 		}
 		tail.Columns[name] = newCol
 	}
